@@ -11,6 +11,8 @@ import Compress.Proofs.BzWApiLatch
 import Compress.Proofs.MetaWApi
 import Compress.XFlate.ReaderSpec
 import Compress.Facts.Sites
+import Compress.Proofs.FlateApi
+import Compress.Proofs.BzReaderApi
 
 namespace Compress.Props.C18
 open Compress Compress.XFlate Compress.Proofs.XFlateWriterLatch
@@ -91,5 +93,44 @@ theorem C18_guards_in_source :
       some (true, ["==io.EOF"]), some (true, ["!=io.EOF"]), some (true, ["!=io.EOF", "done"]) ] := by
   have := Compress.Facts.guards_expected
   decide
+
+/-! ### flate.Reader and bzip2.Reader (API-level models; total functions: no call sequence has a panic value) -/
+
+section readers
+open Compress.Flate.Api in
+/-- **flate.Reader: closed means closed.** A Close that returns nil on a reader with an error latched
+    (that error was `io.EOF`, or the reader was closed already - `C09_flate_close_result`) closes it:
+    every later Read returns `(0, closed error)`, every later Close nil, and nothing changes, for
+    every continuation without Reset.  (A Close that returns nil with nothing latched - mid-stream -
+    does not close: the Go code returns `zr.err`, which is nil, and only drops the pending output.) -/
+theorem C18_flate_reader_closed (r : Reader) (hc : (r.close).2 = none) (he : r.err ≠ none)
+    (ops : List Op) (hn : ∀ op ∈ ops, op.noReset = true) :
+    (r.close).1.done = true ∧ (r.close).1.err = some .closed ∧
+    Reader.run (r.close).1 ops = ((r.close).1, ops.map Compress.Proofs.FlateApi.closedRes) := by
+  have h := (Compress.Proofs.FlateApi.close_nil_iff r).1 hc
+  have h' : r.err = some .eof ∨ r.done = true := by
+    rcases h with h | h | h
+    · exact absurd h he
+    · exact Or.inl h
+    · exact Or.inr h
+  have hcl := (Compress.Proofs.FlateApi.close_closes r h').2
+  exact ⟨hcl.1, by simp [Reader.err, hcl.1], Compress.Proofs.FlateApi.closed_forever _ hcl ops hn⟩
+
+open Compress.Bzip2.ReaderApi in
+/-- **bzip2.Reader: closed means closed** (same statement). -/
+theorem C18_bzip2_reader_closed (r : Reader) (hc : (r.close).2 = none) (he : r.err ≠ none)
+    (ops : List Op) (hn : ∀ op ∈ ops, op.noReset = true) :
+    (r.close).1.done = true ∧ (r.close).1.err = some .closed ∧
+    Reader.run (r.close).1 ops = ((r.close).1, ops.map Compress.Proofs.BzReaderApi.closedRes) := by
+  have h := (Compress.Proofs.BzReaderApi.close_nil_iff r).1 hc
+  have h' : r.err = some .eof ∨ r.done = true := by
+    rcases h with h | h | h
+    · exact absurd h he
+    · exact Or.inl h
+    · exact Or.inr h
+  have hcl := (Compress.Proofs.BzReaderApi.close_closes r h').2
+  exact ⟨hcl.1, by simp [Reader.err, hcl.1], Compress.Proofs.BzReaderApi.closed_forever _ hcl ops hn⟩
+
+end readers
 
 end Compress.Props.C18
